@@ -147,12 +147,12 @@ def vt(v):
 def family_matrix():
     """P1: fault-free wire matrix (C04): version generation x codec x acks x batching x payload shapes."""
     out = []
-    versions = ["0.8.2.0", "0.10.0.0", "0.11.0.0", "2.1.0"]
+    versions = ["0.8.2.0", "0.9.0.0", "0.10.0.0", "0.10.2.0", "0.11.0.0", "1.0.0", "2.1.0", "2.8.0"]
     for v in versions:
         for codec in (0, 1, 2, 3, 4):
             if codec == 3 and vt(v) < (0, 10):
                 continue
-            if codec == 4 and v != "2.1.0":
+            if codec == 4 and vt(v) < (2, 1):
                 continue
             for acks in ("local", "all", "none"):
                 for nmsg in (1, 3):
